@@ -90,8 +90,37 @@ def explore(ctx):
                     case = dict(s)
                     case["decrypt"] = d
                     failures.append({"class": None, "witness": True, "text": f"decrypt_and_verify of an accepted honest proof returns '{d['result']}' instead of the signed claim ({s['suite']})", "case": case})
+    # (c) a hand-written holder for the byte decomposition of scalar decryption (harness/src/ops_venc.rs):
+    #     honest; bytes of another value (byte randomness a decomposition of the ciphertext randomness, or
+    #     unrelated); the integer m + r.  Whatever is accepted must decrypt to the signed scalar.
+    vb = []
+    R_ = R
+    vals = [("n", 8018881111, 1), ("n", -1, 0), ("n", 0, 255), ("s", 0xabcd, 0xff), ("s", R_ - 1, 1), ("s", 2**255 % R_, 7), ("n", 2**63 - 1, -2**63)]
+    for i, (t, v, o) in enumerate(vals if tier == "thorough" else vals[: 4]):
+        mk = lambda t, x: {"t": "n", "v": str(x)} if t == "n" else {"t": "s", "hex": "%064x" % x}
+        for suite in ("bbs", "ps"):
+            vb.append({"op": "f_vencbytes", "suite": suite, "claim": mk(t, v), "other": mk(t, o)})
+    vres = C.run_exec_parallel(vb, nproc=16) if len(vb) >= 64 else [C.run_exec([o])[0] for o in vb]
+    hist["byte_decomposition"] = {}
+    for s_, r in zip(vb, vres):
+        if r.get("r") != "ok":
+            failures.append({"class": None, "witness": False, "text": f"harness failure {json.dumps(r)[:200]}", "case": s_})
+            continue
+        for variant, x in r["variants"].items():
+            key = f"{variant}: verify={x.get('verify')} scalar={x.get('scalar')}"
+            hist["byte_decomposition"][key] = hist["byte_decomposition"].get(key, 0) + 1
+            case = dict(s_, variant=variant, result=x)
+            if x.get("verify") == "panic":
+                failures.append({"class": None, "witness": True, "text": f"panic on the {variant} byte decomposition", "case": case})
+            elif variant == "claim":
+                if x.get("verify") != "ok" or x.get("scalar") != "signed":
+                    failures.append({"class": None, "witness": False,
+                                     "text": f"calibration: the hand-written holder following the protocol is not accepted / does not decrypt ({x}); holder and library have drifted apart", "case": case})
+            elif x.get("verify") == "ok" and (x.get("scalar") != "signed" or not x.get("group_ok")):
+                failures.append({"class": None, "witness": True,
+                                 "text": f"accepted although scalar decryption does not give the signed claim: byte decomposition '{variant}' ({s_['suite']}), decrypt_scalar -> {x.get('scalar')}", "case": case})
     return {
-        "evaluations": len(res) + sum(len(r.get("decrypt", [])) for r in impl),
+        "evaluations": len(res) + sum(len(r.get("decrypt", [])) for r in impl) + 4 * len(vb),
         "distinct_nontrivial": distinct + len(d2),
         "rule": "cases = (a) external prover with an encryption statement (honest; substitute plaintext with shared / independent nonce; proof omitted; blinder response altered; decryptable part omitted although the statement requests scalar decryption) evaluated by the Coq verifier model and Presentation::verify; (b) Presentation::create with encryption statements (scalar decryption requested or not, standard and hashed generators) and encrypt-and-decrypt statements on claims of every type incl. scalars 0, 1, 255, 256, r-1, r-2, 2^248 and numbers MIN / -1 / 0 / MAX: decrypt() = generator * signed scalar, decrypt_scalar = signed scalar, decrypt_and_verify = signed claim; distinct by (suite, claim, generator, flag)",
         "samples": [{"suite": x["scn"]["suite"], "stmts": x["scn"]["stmts"], "dev": x["scn"]["dev"], "impl": x["impl"], "model": x["model"]} for x in res[:60:13]],
